@@ -4,10 +4,14 @@ Oracle ops for the `fmt` family (C12).
   fmt compact <hex>                                   → "ok <hex>" | "E"      model of Value.Compact()
   fmt indent <prefixhex> <indenthex> <hex>            → "ok <hex>" | "E"      model of Value.Indent(WithIndentPrefix, WithIndent)
   fmt render <m><c><k> <prefixhex> <indenthex> <hex>  → "ok <hex>" | "E"      m=Multiline c=SpaceAfterColon k=SpaceAfterComma (0/1)
+  fmt formatv <u><d><p><h><j> <m><c><k> <prefixhex> <indenthex> <hex> → "ok <hex>" | "E"
+        model of Value.Format(AllowInvalidUTF8(u), AllowDuplicateNames(d), PreserveRawStrings(p), EscapeForHTML(h), EscapeForJS(j), whitespace…)
+  fmt validv <u><d> <hex>                             → "1" | "0"             model of Value.IsValid(AllowInvalidUTF8(u), AllowDuplicateNames(d))
   fmt tokens <hex>                                    → "ok" {" {"|" }"|" ["|" ]"|" s<hex>"|" d<hex>"|" n"|" t"|" f"} | "E"
 -/
 import JsonV.Oracle.Util
 import JsonV.Model.Format
+import JsonV.Model.FormatStrict
 
 namespace JsonV.Oracle.Fmt
 open JsonV JsonV.Oracle JsonV.Fmt
@@ -42,6 +46,15 @@ def handle (op : String) (args : List String) : String :=
       | some m, some c, some k => showRes (format ⟨p, i, m, c, k⟩ b)
       | _, _, _ => badArgs
     | _, _, _, _ => badArgs
+  | "formatv", [v, f, p, i, h] =>
+    match v.toList.map flag, f.toList.map flag, bytesOfHex p, bytesOfHex i, bytesOfHex h with
+    | [some u, some d, some pr, some ht, some js], [some m, some c, some k], some p, some i, some b =>
+      showRes (formatV { allowInvalidUTF8 := u, allowDup := d, preserve := pr, html := ht, js := js, ws := ⟨p, i, m, c, k⟩ } b)
+    | _, _, _, _, _ => badArgs
+  | "validv", [v, h] =>
+    match v.toList.map flag, bytesOfHex h with
+    | [some u, some d], some b => boolStr (isValidV { allowInvalidUTF8 := u, allowDup := d } b)
+    | _, _ => badArgs
   | "tokens", [h] =>
     match bytesOfHex h with
     | some b =>
